@@ -31,6 +31,19 @@ func fuzzFail(t *testing.T, id string, c any, err error) {
 	t.Fatalf("%v", err)
 }
 
+func FuzzC01(f *testing.F) {
+	for _, s := range fuzzSeeds {
+		f.Add([]byte(s))
+	}
+	f.Fuzz(func(t *testing.T, data []byte) {
+		mt := model.Text(data)
+		c := caseC01{Text: &mt}
+		if _, err := safeCheck(checkC01, c); err != nil {
+			fuzzFail(t, "C01", c, err)
+		}
+	})
+}
+
 func FuzzC06(f *testing.F) {
 	for _, s := range fuzzSeeds {
 		f.Add([]byte(s))
